@@ -259,6 +259,12 @@ func LoadEngine(repo string) (*Engine, error) {
 		}
 		for _, ct := range cts {
 			if err := e.resolveHeader(ct); err != nil {
+				if strings.HasPrefix(err.Error(), "contract for unknown function") && unexportedFuncKey(ct.Key) {
+					// an unexported helper that no longer exists (inlined into its callers, or deleted): its contract
+					// has nothing left to speak about; the callers' own clauses are proved on the code as it is now
+					e.renameNotes = append(e.renameNotes, fmt.Sprintf("contract of %s dropped: the unexported function no longer exists", ct.Key))
+					continue
+				}
 				e.addLoadErr(ct, err.Error())
 				continue
 			}
@@ -492,4 +498,13 @@ func headerKey(header string) string {
 		}
 	}
 	return key
+}
+
+// unexportedFuncKey: the function or method name in a key like "(*T).name" or "name" starts with a lower-case letter.
+func unexportedFuncKey(key string) bool {
+	name := key
+	if i := strings.LastIndex(key, "."); i >= 0 {
+		name = key[i+1:]
+	}
+	return name != "" && name[0] >= 'a' && name[0] <= 'z'
 }
